@@ -394,14 +394,12 @@ Definition hknown_enc (nhosts bs : nat) (l : list (nat * op)) : list N :=
 
 (* ---- the side condition of the rename-inclusive theorems (Known.v) ----------------------------------------
    Besides the known classes those theorems exclude: create_dir_all / remove_dir_all; renames between two
-   different directories; any creation of a file at a name a file left since the last crash (FsSafe.KRecreate -
+   different directories once one of the two directories is synced while the rename is unflushed (a rename that
+   a crash meets unflushed is covered); any creation of a file at a name a file left since the last crash (FsSafe.KRecreate -
    the known finding Recreate above is narrower); a rename onto a name a directory was removed from since the
    last crash; a crash while a durable entry has a non-durable ancestor. *)
-Definition same_parent (f r : path) : bool :=
-  match parent f, parent r with Some a, Some b => path_eqb a b | _, _ => false end.
-
 Definition c07r_op (o : op) : bool :=
-  match o with MkdirAll _ | RmdirAll _ => false | Rename f r => same_parent f r | _ => true end.
+  match o with MkdirAll _ | RmdirAll _ => false | _ => true end.
 
 Definition extra_excluded (d : dworld) (gh : ghost) (o : op) : bool :=
   match o with
@@ -411,6 +409,11 @@ Definition extra_excluded (d : dworld) (gh : ghost) (o : op) : bool :=
   | Rename f r =>
       match nget (names (dw d)) f with
       | Some (EFile _) => rename_ok (dw d) f r && mem_path r (ggdirs gh)
+      | _ => false
+      end
+  | SyncDir p =>
+      match nget (names (dw d)) p with
+      | Some EDir => existsb (fun r => let '(i, f, g) := r in negb (Bool.eqb (child_of f p) (child_of g p))) (gpren gh)
       | _ => false
       end
   | _ => false
